@@ -224,6 +224,9 @@ func runChild() {
 					l2Good++
 				}
 				l2mu.Unlock()
+				for _, why := range res.Inconclusive {
+					fmt.Fprintf(os.Stderr, "C12 L2 scenario %d (%.1fs) inconclusive: %s\n", res.Scenario, res.WallS, why)
+				}
 			})
 		}()
 	} else {
